@@ -88,6 +88,14 @@ def special_form(ex, name, e, st):
             s2.heap.write_global('$ui_state', ex.W.parse_type(trace.CELLS['$ui_state']), v)
             out.append((s2, mk_none()))
         return out
+    if name == 'reveal':
+        # reveal(m, "matches"): the defining equations of the interface UF for the classes m can have, in the current heap
+        out = []
+        for s, v in ex.ev(e.args[0], st):
+            meth = e.args[1].value
+            facts = ex.S.reveal(v, meth, s.heap)
+            out.append((s.assume(*facts), mk_none()))
+        return out
     if name == 'set_probe':
         out = []
         for s, v in ex.ev(e.args[0], st):
